@@ -30,6 +30,8 @@ type RevProfile struct {
 	RacePanic     bool
 	CachePct      int
 	LatMax        int  // upper bound of latencies in ms (0 = 3000)
+	SoakPct       int  // percent of runs that are sequential multi-validation histories over simulated time (shared cache)
+	SoakLong      bool // thorough: longer histories
 	Perms         int  // forced completion-order permutations: n sampled, -1 = all m!
 	Hostile       bool // C09: structure-aware deletions and odd shapes on top
 	TimeInvariant bool // C17: no time-dependent behaviours so that only the schedule varies
@@ -59,8 +61,9 @@ type World struct {
 	STFrac      bool
 	ST          time.Time
 	SharedHost  bool
-	Reps        int // concurrent callers validating this same world (ValidateContext only)
-	TSADefect   int // C15: defect of the TSA chain (purpose timestamping)
+	Reps        int    // concurrent callers validating this same world (ValidateContext only)
+	TSADefect   int    // C15: defect of the TSA chain (purpose timestamping)
+	CloneOf     *World // soak: same chain and URLs as this world, other contents
 	// materialised
 	OtherCA    *Cert
 	Unrelated  *Key
@@ -83,10 +86,13 @@ type RevScenario struct {
 	CRLTimeout       time.Duration
 	Cancel           int
 	CancelAfter      time.Duration
-	CancelXSel       int    // CancelOnXchg: selects one of the planned exchanges
-	CancelXPreferCRL bool   // ... preferring base-CRL downloads (the base/delta boundary)
-	HealCert         int    // C06.R5 twin: certificate whose sources are made honest in the second run
-	PanicAt          string // "" | "transport" | "fetcher" | "cache"
+	CancelXSel       int             // CancelOnXchg: selects one of the planned exchanges
+	CancelXPreferCRL bool            // ... preferring base-CRL downloads (the base/delta boundary)
+	HealCert         int             // C06.R5 twin: certificate whose sources are made honest in the second run
+	Sequential       bool            // soak: the worlds are successive validations of the same chain
+	Gaps             []time.Duration // soak: fake time that passes before each validation
+	Restarts         []bool          // soak: a new fetcher and validator (same cache) is built before the validation
+	PanicAt          string          // "" | "transport" | "fetcher" | "cache"
 	PanicWorld       int
 	PanicRep         int
 	PanicCert        int
@@ -342,7 +348,27 @@ func GenRevScenario(t *Tape, p *RevProfile) *RevScenario {
 			break
 		}
 	}
-	if p.CancelPct > 0 && t.Bool(p.CancelPct) {
+	if p.SoakPct > 0 && t.Bool(p.SoakPct) && len(sc.Worlds) == 1 && sc.Worlds[0].Entry == EValidateContext && sc.Worlds[0].ChainDefect == ChainOK {
+		// a history of validations of the same chain over simulated time:
+		// sources change their answers, caches age, the validator is restarted
+		sc.Sequential = true
+		if sc.Fetcher == FetchReal && t.Bool(70) {
+			sc.Fetcher = FetchRealCache
+		}
+		nOps := 2 + t.Weighted(45, 30, 15, 10)
+		if p.SoakLong {
+			nOps = 3 + t.Choose(6)
+		}
+		sc.Gaps = []time.Duration{0}
+		sc.Restarts = []bool{false}
+		for k := 1; k < nOps; k++ {
+			sc.Worlds = append(sc.Worlds, p.cloneWorld(t, sc, sc.Worlds[0], k))
+			gap := []time.Duration{time.Second, 10 * time.Minute, 26*time.Hour - 3*time.Second, 26 * time.Hour, 26*time.Hour + 2*time.Second, 30 * 24 * time.Hour, 0, 3 * time.Second}[t.Weighted(20, 20, 12, 12, 12, 10, 6, 8)]
+			sc.Gaps = append(sc.Gaps, gap)
+			sc.Restarts = append(sc.Restarts, t.Bool(20))
+		}
+	}
+	if p.CancelPct > 0 && !sc.Sequential && t.Bool(p.CancelPct) {
 		sc.Cancel = 1 + t.Weighted(12, 48, 12, 28)
 		sc.CancelAfter = time.Duration(t.Choose(6000)) * time.Millisecond
 		sc.CancelXSel = t.Choose(1000)
@@ -394,6 +420,68 @@ func GenRevScenario(t *Tape, p *RevProfile) *RevScenario {
 		}
 	}
 	return sc
+}
+
+// cloneWorld makes the k-th validation of a soak history: same chain, same
+// URLs, but every source may answer differently than before (the CA revoked or
+// released the certificate, a responder went down, a new CRL was published).
+func (p *RevProfile) cloneWorld(t *Tape, sc *RevScenario, o *World, k int) *World {
+	w := &World{ID: o.ID + k, Purpose: o.Purpose, Entry: o.Entry, HasST: o.HasST, STFrac: o.STFrac, ST: o.ST, CloneOf: o}
+	faulty := sc.Config != 0
+	for _, ocp := range o.Certs {
+		cp := &CertPlan{Pos: ocp.Pos, KeyKind: ocp.KeyKind, LongSerial: ocp.LongSerial, Serial: ocp.Serial, NoCRLSign: ocp.NoCRLSign, Freshest: ocp.Freshest}
+		truth := t.Weighted(55, 30, 5, 10)
+		for _, os := range ocp.OCSP {
+			s := &OCSPSrc{URL: os.URL, URLKind: os.URLKind, Host: os.Host, Content: os.Content, Fault: os.Fault, Latency: os.Latency}
+			if t.Bool(45) {
+				dev := faulty && sc.Config >= 2 && t.Bool(p.PSrcFault)
+				s.Content = p.genOCSPContent(t, sc, truth, dev)
+				s.Fault = Fault{}
+				if faulty && sc.Config != 2 && t.Bool(p.PSrcFault) {
+					s.Fault = p.genFault(t, sc, "ocsp")
+				}
+				s.Latency = genLatency(t, p.LatMax)
+			}
+			cp.OCSP = append(cp.OCSP, s)
+		}
+		for _, oc := range ocp.CRL {
+			c := *oc
+			s := &c
+			s.XBase, s.XDelta = nil, nil
+			s.CacheSeed = 0
+			s.BaseNum = oc.BaseNum + int64(3*k) // a newer publication
+			s.DeltaFault = append([]Fault(nil), oc.DeltaFault...)
+			s.DeltaLat = append([]time.Duration(nil), oc.DeltaLat...)
+			if t.Bool(45) {
+				dev := faulty && sc.Config >= 2 && t.Bool(p.PSrcFault)
+				s.Base = p.genCRLPlan(t, sc, truth, dev, false)
+				s.BaseFault = Fault{}
+				if faulty && sc.Config != 2 && t.Bool(p.PSrcFault) {
+					s.BaseFault = p.genFault(t, sc, "crl")
+				}
+				if s.HasDelta {
+					devD := faulty && sc.Config >= 2 && t.Bool(p.PSrcFault)
+					s.Delta = p.genCRLPlan(t, sc, truth, devD, true)
+					for j := range s.DeltaFault {
+						s.DeltaFault[j] = Fault{}
+						if faulty && sc.Config != 2 && t.Bool(p.PSrcFault) {
+							s.DeltaFault[j] = p.genFault(t, sc, "delta")
+						}
+					}
+				}
+				if sc.Fetcher == FetchStub {
+					s.StubErr = faulty && t.Bool(p.PSrcFault/2)
+				}
+				if sc.Fetcher == FetchRealCache && faulty {
+					s.CacheGetEr = t.Bool(10)
+					s.CacheSetEr = t.Bool(10)
+				}
+			}
+			cp.CRL = append(cp.CRL, s)
+		}
+		w.Certs = append(w.Certs, cp)
+	}
+	return w
 }
 
 func (p *RevProfile) genWorld(t *Tape, sc *RevScenario, id int) *World {
